@@ -125,7 +125,21 @@ func (ps *PathState) query(e *Exec, extra *Term) (SatResult, Model) {
 	ps.nBranchQ++
 	r, m := e.solver.CheckWithModel(ps.varTerms(), extra)
 	if r == Unknown {
-		panic(abortErr{"solver", "solver returned unknown/timeout"})
+		// fallback: the same query, stand-alone, on the other solvers
+		script := scriptFor(append(append([]*Term{}, ps.pc...), extra), ps.varTerms())
+		t0 := time.Now()
+		for _, k := range []string{"cvc5", "z3-new"} {
+			e.fallbackTried++
+			r, m = oneShot(k, script, e.w.fallbackMs, ps.varTerms())
+			if r != Unknown {
+				e.fallbackDecided++
+				break
+			}
+		}
+		e.fallbackTime += time.Since(t0)
+	}
+	if r == Unknown {
+		panic(abortErr{"solver", "solver returned unknown/timeout (z3, cvc5 and z3-new)"})
 	}
 	if r == Sat {
 		ps.checkModel(e, m, extra)
